@@ -15,7 +15,7 @@
 #define BITSET_OPS(X) \
     X(construct) X(assign) X(resize) X(clear) X(push_back) X(pop_back) X(reserve) X(set_all) X(set_bit) X(reset_all) X(reset_bit) \
     X(flip_all) X(flip_bit) X(shl_assign) X(shr_assign) X(shl) X(shr) X(and_assign) X(or_assign) X(xor_assign) X(not_op) X(binop) \
-    X(ref_op) X(iter_write) X(copy_assign) X(move_assign) X(swap) X(compare) X(at) X(owner_write) X(view_reseat) X(view_resize) X(view_copy)
+    X(ref_op) X(iter_write) X(copy_assign) X(move_assign) X(swap) X(compare) X(at) X(owner_write) X(view_reseat) X(view_resize) X(view_copy) X(big_shift)
 
 namespace bsops
 {
@@ -293,12 +293,29 @@ namespace
             SIM_PROBE("recovered_after_allocation_failure");
         }
         // runs a mutation of owning slot t that may hit an injected allocation failure
-        template <class F> bool guarded(int t, F f)
+        // `canonical`: the call is one whose failed allocation must leave a canonical object behind - the property's
+        // "bits beyond size() in the last block are always zero" and block_count() == ceil(size()/w) are stated without
+        // exception, so they are kept after bad_alloc too (which *value* the bitset then has is not asked: old or new)
+        template <class F> bool guarded(int t, F f, bool canonical = true)
         {
             try { f(); return true; }
             catch (const std::bad_alloc&)
             {
                 if (!fstate().fired) viol("exception", "unexpected-bad_alloc", "bad_alloc without an injected allocation failure");
+                if (canonical)
+                {
+                    const BSet& cx = own[t].get();
+                    size_t n = cx.size();
+                    if (cx.block_count() != nblocks(n)) viol("invariant", "block_count-after-bad_alloc", "after a failed allocation block_count() == " + std::to_string(cx.block_count()) + " for size() == " + std::to_string(n));
+                    if (n % W)
+                    {
+                        B last = cx.data()[cx.block_count() - 1];
+                        if (static_cast<B>(last >> (n % W)) != 0) viol("invariant", "unused-bits-after-bad_alloc", "after a failed allocation bits beyond size() == " + std::to_string(n) + " are set in the last block");
+                    }
+                    size_t ones = 0;
+                    for (size_t i = 0; i < n; ++i) ones += static_cast<bool>(cx[i]);
+                    if (cx.count() != ones) viol("invariant", "count-after-bad_alloc", "after a failed allocation count() disagrees with the bits");
+                }
                 recover(t);
                 return false;
             }
@@ -584,6 +601,61 @@ namespace
             ++run.changing;
             check_all();
         }
+        // Shifts over many blocks: a self-contained history on a temporary owner and a view over heap memory whose
+        // block count exceeds what a block-typed counter can hold (more than 2^w blocks for 8-bit blocks always, for
+        // 16-bit blocks in one of eight cases), so that a shift may skip more than 2^w whole blocks.
+        void op_big_shift(const Step& st)
+        {
+            static const char* const vn[] = {"owner_shl_assign", "owner_shr_assign", "owner_shl", "owner_shr", "view_shl_assign", "view_shr_assign"};
+            unsigned v = static_cast<unsigned>(st.d % 6);
+            Scope sc(*this, st, "big_shift", vn[v], 0);
+            Suspend nofaults;
+            size_t wrap = W >= 32 ? size_t(40) : (size_t(1) << W);              // blocks after which a block-typed counter wraps
+            if (W == 16 && (st.c & 7) != 0) wrap = 300;                          // mostly moderate sizes for 16-bit blocks (the huge one costs ~10 ms)
+            size_t n = wrap * W + static_cast<size_t>(st.a % (3 * W)) + ((st.a >> 8) & 1 ? 0 : W * static_cast<size_t>((st.a >> 9) % 40));
+            size_t choices[6] = {wrap * W, wrap * W + 1 + static_cast<size_t>(st.b % W), wrap * W + W * static_cast<size_t>(st.b % 5), n - 1, static_cast<size_t>(st.b % (n + 2)), W * static_cast<size_t>(st.b % (n / W + 1))};
+            size_t pos = choices[(st.b >> 20) % 6];
+            Model m = rand_bits(st.c, n);
+            std::vector<B> blocks = pack(m);
+            SIM_PROBE("shift_over_more_than_2^w_blocks_possible");
+            if (pos >= (size_t(1) << std::min<size_t>(W, 20)) * W && pos < n) SIM_PROBE("shift_skips_2^w_blocks_or_more");
+            Model want(n, false);
+            bool left = v == 0 || v == 2 || v == 4;
+            for (size_t i = 0; i < n; ++i)
+            {
+                if (left) { if (i >= pos) want[i] = m[i - pos]; }
+                else { if (i + pos < n) want[i] = m[i + pos]; }
+            }
+            auto compare = [&](const auto& x, const char* what)
+            {
+                if (x.size() != n) this->viol("model", "big-shift", std::string(what) + ": size changed");
+                const B* d = x.data();
+                std::vector<B> wb = pack(want);
+                for (size_t i = 0; i < wb.size(); ++i)
+                    if (d[i] != wb[i]) this->viol("model", "big-shift", std::string(what) + " by " + std::to_string(pos) + " of " + std::to_string(n) + " bits: block " + std::to_string(i) + " differs from the shifted sequence");
+                size_t ones = 0; for (size_t i = 0; i < n; ++i) ones += want[i];
+                if (x.count() != ones) this->viol("model", "big-shift", std::string(what) + ": count() differs");
+            };
+            if (v < 4)
+            {
+                Tmp x(blocks.begin(), blocks.end());
+                x.resize(n);
+                if (v == 0) { x <<= pos; compare(x, "operator<<="); }
+                else if (v == 1) { x >>= pos; compare(x, "operator>>="); }
+                else if (v == 2) { Tmp r = x << pos; compare(r, "operator<<"); }
+                else { Tmp r = x >> pos; compare(r, "operator>>"); }
+            }
+            else
+            {
+                std::vector<B> mem(blocks.size() + 2, B(0x5a));      // one guard block on each side
+                std::copy(blocks.begin(), blocks.end(), mem.begin() + 1);
+                View x(mem.data() + 1, n);
+                if (v == 4) { x <<= pos; compare(x, "view operator<<="); } else { x >>= pos; compare(x, "view operator>>="); }
+                if (mem.front() != B(0x5a) || mem.back() != B(0x5a)) viol("containment", "guard-blocks", "a shift of a large view wrote outside its blocks");
+            }
+            check_all();
+        }
+
         void op_not(const Step& st)
         {
             int t = st.actor % 5;
@@ -618,8 +690,9 @@ namespace
         void op_ref(const Step& st)
         {
             int t = st.actor % 5;
-            static const char* const vn[] = {"assign_bool", "assign_ref", "and_assign", "or_assign", "xor_assign", "flip", "tilde", "address_of", "front", "back", "at_ref", "const_ref"};
-            unsigned v = static_cast<unsigned>(st.d % 12);
+            static const char* const vn[] = {"assign_bool", "assign_ref", "and_assign", "or_assign", "xor_assign", "flip", "tilde", "address_of", "front", "back", "at_ref", "const_ref",
+                                             "assign_temporary_ref", "assign_const_ref", "fill_with_named_ref"};
+            unsigned v = static_cast<unsigned>(st.d % 15);
             Scope sc(*this, st, "ref_op", vn[v], t);
             Model& m = model_of(t);
             if (m.empty()) { stats().add("skipped.empty_ref_op"); return; }
@@ -642,7 +715,15 @@ namespace
                 case 8: got = static_cast<bool>(cx.front()); want = m.front(); x.front() = val; m[0] = val; break;
                 case 9: got = static_cast<bool>(cx.back()); want = m.back(); x.back() = val; m[m.size() - 1] = val; break;
                 case 10: x.at(i) = val; m[i] = val; got = static_cast<bool>(cx.at(i)); want = val; break;
-                default: got = static_cast<bool>(cx[i]) && !~cx[i]; want = m[i]; wrote = false; break;
+                case 11: got = static_cast<bool>(cx[i]) && !~cx[i]; want = m[i]; wrote = false; break;
+                case 12: x[i] = x[j]; m[i] = m[j]; break;                                  // from a temporary reference
+                case 13: { const auto rj = x[j]; x[i] = rj; m[i] = m[j]; } break;            // from a const named reference
+                default:
+                    { auto rj = x[j]; bool vj = m[j]; size_t lo = std::min(i, j), hi = std::max(i, j);
+                      std::fill(x.begin() + static_cast<std::ptrdiff_t>(lo), x.begin() + static_cast<std::ptrdiff_t>(hi), rj);
+                      // filling may overwrite bit j itself only at the very end of the range (j == hi is outside it)
+                      for (size_t k = lo; k < hi; ++k) { m[k] = vj; if (k == j) vj = m[j]; } }
+                    break;
                 }
             });
             if (got != want) viol("model", "ret", std::string("reference operation ") + vn[v] + " read the wrong value at bit " + std::to_string(i));
@@ -694,13 +775,13 @@ namespace
             else if (p == t)
             {
                 if (move) { stats().add("skipped.self_move"); }
-                else { BSet& x = own[t].get(); const BSet& cx = x; guarded(t, [&] { x = cx; }); SIM_PROBE("self_copy_assignment"); }
+                else { BSet& x = own[t].get(); const BSet& cx = x; guarded(t, [&] { x = cx; }, false); SIM_PROBE("self_copy_assignment"); }
             }
             else
             {
                 BSet& x = own[t].get();
                 BSet& y = own[p].get();
-                bool done = guarded(t, [&] { if (move) x = std::move(y); else x = static_cast<const BSet&>(y); });
+                bool done = guarded(t, [&] { if (move) x = std::move(y); else x = static_cast<const BSet&>(y); }, false);   // defaulted member-wise assignment: no canonical state promised
                 if (done) om[t] = om[p]; else SIM_PROBE("allocation_failure_in_copy_assignment");
                 if (move) { Suspend s; y = BSet(); om[p].clear(); }
             }
@@ -857,6 +938,7 @@ namespace
             case OP_view_reseat: op_view_reseat(st); break;
             case OP_view_resize: op_view_resize(st); break;
             case OP_view_copy: op_view_copy(st); break;
+            case OP_big_shift: op_big_shift(st); break;
             default: { StepScope sc(run, st, "noop"); } break;
             }
         }
@@ -877,6 +959,7 @@ namespace
         unsigned w[OP_COUNT];
         for (unsigned i = 0; i < OP_COUNT; ++i) w[i] = 4;
         w[OP_resize] = 10; w[OP_push_back] = 6; w[OP_flip_all] = w[OP_set_all] = 6; w[OP_shl_assign] = w[OP_shr_assign] = 7;
+        w[OP_big_shift] = 1;
         w[OP_clear] = 2; w[OP_view_reseat] = 3; w[OP_view_copy] = 2; w[OP_view_resize] = 1; w[OP_reserve] = 2; w[OP_at] = 5;
         if (cfg.below(4) != 0)
             for (unsigned i = 0; i < OP_COUNT; ++i) if (cfg.below(4) == 0) w[i] = 0;
